@@ -222,7 +222,7 @@ def m_C01(v):
 
 def m_C02(v):
     """launchpad-token solvency: deposit size, coverage, final zero"""
-    out = []
+    out = bad_views(v, "C02")
     lp = v.deploy["lp"] if v.deploy else 2
     W_total = None
     for i, k in enumerate(v.kind):
@@ -256,7 +256,7 @@ def m_C02(v):
 
 def m_C03(v):
     """exactly min(T, confirmed) distinct winners; three counts agree"""
-    out = []
+    out = bad_views(v, "C03")
     seen_done = False
     for i, k in enumerate(v.kind):
         if k != "dump" or not v.D[i]:
@@ -637,7 +637,7 @@ STAGE_REQ = {
 
 def m_C06(v):
     """gated endpoints are accepted only in their phase; sub-steps in order; stage never decreases"""
-    out = []
+    out = bad_views(v, "C06")
     last_stage = None
     for i, k in enumerate(v.kind):
         if k == "deploy" or v.ops[i][0].startswith("restore"):
@@ -915,7 +915,7 @@ OWNER_ONLY_ABI = {"addTickets", "depositLaunchpadTokens", "setTicketPrice", "set
 
 def m_C15(v):
     """privileged endpoints accept only their intended callers"""
-    out = []
+    out = bad_views(v, "C15")
     owner = None
     for i, (line, impl, _m) in enumerate(v.ops):
         if line.startswith("abi") and impl.startswith("A "):
@@ -943,7 +943,7 @@ def m_C15(v):
 
 def m_C16(v):
     """locked variants split exactly between the lock contract and the wallet"""
-    out = []
+    out = bad_views(v, "C16")
     if v.variant not in gen.LOCKED:
         return out
     lp = v.deploy["lp"]
@@ -974,12 +974,23 @@ def m_C16(v):
     return out
 
 
-def m_C17(v):
-    """sale terms frozen once participants can commit funds"""
+VIEW_OWNER = canon.VIEW_OWNER
+
+
+def bad_views(v, pid):
+    """(index, message) for every dump in which a getter owned by property `pid` lies (unknown names go to C17)"""
     out = []
     for i, k in enumerate(v.kind):
         if k == "dump" and v.D[i] and v.D[i][0].get("views", "ok") != "ok":
-            out.append((i, f"C17 public getters disagree with the stored terms: {v.D[i][0]['views']}"))
+            names = [n for n in v.D[i][0]["views"].split("+") if VIEW_OWNER.get(n, "C17") == pid]
+            if names:
+                out.append((i, f"{pid} public getters disagree with the storage they report: {'+'.join(names)}"))
+    return out
+
+
+def m_C17(v):
+    """sale terms frozen once participants can commit funds"""
+    out = bad_views(v, "C17")
     for i, k in enumerate(v.kind):
         if not v.accepted(i):
             continue
@@ -1075,7 +1086,7 @@ def m_C18(v):
 
 def m_C19(v):
     """paused: confirmations and selection steps rejected; rejected calls change nothing"""
-    out = []
+    out = bad_views(v, "C19")
     for i, k in enumerate(v.kind):
         if not v.accepted(i):
             continue
